@@ -442,6 +442,98 @@ def _s3_timeout_bound(ctx, rep, model_ok=False):
                     lpm.random = saved[2]
 
 
+def s3_dead_holder(ctx, rep, sig):
+    """a holder that DIED (no release, no renewal): once its lease lapsed, a new acquirer calling the real acquire() gets the lock
+    within its timeout — both providers. Used by C03 (a dead writer must not wedge the table)."""
+    import random as _random
+    import datashard.lock_provider as lpm
+    for cls_name in ("S3LockProvider", "S3PollingLockProvider"):
+        cls = getattr(lpm, cls_name, None)
+        if cls is None:
+            continue
+        for wait_before in (61.0, 600.0, 50.0):
+            vt = VTime()
+            fake = fakes3.FakeS3(clock=lambda vt=vt: dt.datetime.fromtimestamp(vt.t, dt.timezone.utc))
+            holder = cls(fake, "bkt", "tbl/.locks/metadata.lock", timeout=5.0, lease_seconds=60)
+            waiter = cls(fake, "bkt", "tbl/.locks/metadata.lock", timeout=5.0, lease_seconds=60)
+            for p_ in (holder, waiter):
+                p_._start_heartbeat = lambda: None
+                p_._stop_heartbeat_thread = lambda: None
+            saved = (lpm.time, dt.datetime, getattr(lpm, "random", None))
+
+            def sleep(s_, vt=vt):
+                vt.t = vt.t + max(0.0, float(s_))
+            lpm.time = types.SimpleNamespace(time=vt.time, monotonic=vt.monotonic, sleep=sleep)
+            if saved[2] is not None:
+                lpm.random = _random.Random(7)
+            _VDatetime.clock = vt
+            dt.datetime = _VDatetime
+            case = {"kind": "s3-dead-holder", "provider": cls_name, "lease_s": 60, "waited_s": wait_before, "timeout_s": 5.0}
+            try:
+                holder.acquire()
+                vt.t += wait_before             # the holder's process is gone: nothing renews, nothing releases
+                rep.evaluations += 1
+                rep.nontrivial(["s3-dead-holder", cls_name, wait_before])
+                try:
+                    waiter.acquire()
+                    got = True
+                except TimeoutError:
+                    got = False
+                except Exception as e:          # noqa: BLE001
+                    got = False
+                    case["error"] = f"{type(e).__name__}: {e}"[:120]
+                if wait_before > 60 and not got:
+                    rep.violate(sig, f"{cls_name}: the holder died {wait_before:.0f}s ago (lease 60s) and a new acquirer still cannot take the lock "
+                                     f"({case.get('error', 'TimeoutError')})", case)
+                if wait_before < 60 and got and cls_name == "S3LockProvider":
+                    rep.violate("C19:s3-two-holders", f"{cls_name}: lock taken over {wait_before:.0f}s into a 60s lease", case)
+            finally:
+                lpm.time, dt.datetime = saved[0], saved[1]
+                if saved[2] is not None:
+                    lpm.random = saved[2]
+
+
+def _env_spellings(ctx, rep):
+    """configuration glue: the documented switch between the conditional-write lock and the polling lock is not case-sensitive —
+    every capitalisation of a value selects the same provider as its lower-case spelling"""
+    import datashard.storage_backend as sb
+    keys = {"DATASHARD_STORAGE_TYPE": "s3", "DATASHARD_S3_BUCKET": "bkt", "DATASHARD_S3_ACCESS_KEY": "k", "DATASHARD_S3_SECRET_KEY": "s",
+            "DATASHARD_S3_ENDPOINT": "https://example.invalid", "DATASHARD_S3_PREFIX": "p"}
+    saved = {k_: os.environ.get(k_) for k_ in list(keys) + ["DATASHARD_S3_USE_CONDITIONAL_WRITES"]}
+    try:
+        os.environ.update(keys)
+
+        def provider(val):
+            if val is None:
+                os.environ.pop("DATASHARD_S3_USE_CONDITIONAL_WRITES", None)
+            else:
+                os.environ["DATASHARD_S3_USE_CONDITIONAL_WRITES"] = val
+            try:
+                be = sb.create_storage_backend("t")
+                return type(be.create_lock(".locks/metadata.lock")).__name__
+            except Exception as e:      # noqa: BLE001
+                return "raise:" + type(e).__name__
+        for base_val in ("true", "false", "1", "0", "yes", "no"):
+            ref = provider(base_val)
+            for v in {base_val.upper(), base_val.capitalize(), " " + base_val, base_val + " "} - {base_val}:
+                got = provider(v)
+                rep.evaluations += 1
+                rep.nontrivial(["env-spelling", v])
+                if got != ref and v.strip() != v:
+                    continue        # surrounding blanks: only recorded
+                if got != ref:
+                    rep.violate("C19:lock-kind-depends-on-capitalisation", f"DATASHARD_S3_USE_CONDITIONAL_WRITES={v!r} selects {got}, {base_val!r} selects {ref}",
+                                {"kind": "env-spelling", "value": v, "reference": base_val})
+        default = provider(None)
+        rep.sample({"lock_provider_by_default": default, "true": provider("true"), "false": provider("false")})
+    finally:
+        for k_, v_ in saved.items():
+            if v_ is None:
+                os.environ.pop(k_, None)
+            else:
+                os.environ[k_] = v_
+
+
 def _s3_case(ctx, rep, rng, model_ok, case_id, directed=None):
     import datashard.lock_provider as lpm
     from datashard.lock_provider import S3LockProvider
@@ -564,6 +656,8 @@ def _s3_case(ctx, rep, rng, model_ok, case_id, directed=None):
                                 o = fake.objects.get("tbl/.locks/metadata.lock")
                                 live_violation.append((a, b))
                         acquired_at[a] = vt.t
+                elif cmd == "pause":
+                    S.gate("pause")         # a scheduling point between two API calls that may make no request at all
                 elif cmd == "is_held":
                     r = p.is_held()
                     o = fake.objects.get("tbl/.locks/metadata.lock")
@@ -634,6 +728,13 @@ RELEASE_SPANS_TAKEOVER = {
     "scripts": {1: ["acquire", "release"], 2: ["acquire"], 3: ["acquire"]},
     # 1: create ; 1: release GET ; clock +61 ; 2: create(fails) head takeover ; 1: DELETE ; 3: create
     "order": [1, 1, 1, ("tick", 61), 2, 2, 2, 2, 1, 1, 3, 3],
+}
+
+
+IS_HELD_AFTER_TAKEOVER = {
+    "scripts": {1: ["acquire", "is_held", "pause", "is_held", "pause", "is_held"], 2: ["acquire", "is_held"]},
+    # 1: create ; clock +59 ; 1 looks (still its own) ; clock +2 ; 2: create(fails) head takeover ; 1 looks again, twice ; 2 looks
+    "order": [1, 1, ("tick", 59), 1, ("tick", 2), 2, 2, 2, 2, 1, 1, ("tick", 1), 1, 1, 2, 2],
 }
 
 
@@ -718,9 +819,12 @@ def run(ctx, model_ok):
         _fallback_lock(ctx, rep, base)
         _same_instance(ctx, rep, base)
         _s3_timeout_bound(ctx, rep, model_ok)
+        s3_dead_holder(ctx, rep, "C19:s3-dead-holder-never-taken-over")
+        _env_spellings(ctx, rep)
         try:
             _s3_case(ctx, rep, rng, model_ok, -1, directed=RELEASE_SPANS_TAKEOVER)
             _s3_case(ctx, rep, rng, model_ok, -2, directed=RENEW_AFTER_TAKEOVER)
+            _s3_case(ctx, rep, rng, model_ok, -3, directed=IS_HELD_AFTER_TAKEOVER)
         except sched.Stuck as e:
             rep.notes.append(f"directed s3 case stuck: {e}")
         for i in range(ctx.budget(40, 800)):
